@@ -557,6 +557,13 @@ def base_obligations(root, pid, res, st):
     res.oblige('model:extraction+ocaml build', st['model']['ok'], st['model'].get('msg', '')[-500:])
     res.oblige('harness:cargo build (hooks on)', st['harness']['ok'], st['harness'].get('msg', '')[-800:])
     res.cov['theorems'] = nthm
+    if res.tier == 'thorough' and ps is not None and ps['ok']:
+        # the independent checker re-checks props/<pid>.vo and everything it depends on, and lists the axioms
+        rc, out = sh('timeout 2400 coqchk -o -silent -Q theories LS -Q gen LSGen -Q props LSProps -Q theories/conc LSConc LSProps.%s 2>&1' % pid,
+                     2500, cwd=os.path.join(root, 'coq'))
+        ok = rc == 0 and '* Axioms: <none>' in out and 'type-in-type: <none>' in out and 'unsafe (co)fixpoints: <none>' in out \
+             and 'positivity is assumed: <none>' in out
+        res.oblige('coqchk -o: independent re-check of props/%s.vo and its dependencies; axioms <none>' % pid, ok, out[-600:])
 
 # ------------------------------------------------------------------------------------------------ C12 push loops
 def push_loop_specs(tier):
